@@ -170,6 +170,10 @@ def val_cmp(I, a, b):
     return Adt('Ordering', 2, [])
 
 
+import functools
+
+
+@functools.lru_cache(maxsize=None)
 def generic_args(path):
     """top-level generic argument groups of the *first* '<...>' that directly follows an identifier
     or '::' in path (i.e. turbofish), as list of strings"""
@@ -192,6 +196,7 @@ def generic_args(path):
     return out
 
 
+@functools.lru_cache(maxsize=None)
 def qself(path):
     """for '<T as Trait<..>>::m' return (T, Trait<..>)"""
     if not path.startswith('<'):
